@@ -9,14 +9,25 @@ import (
 // 0 list the month directory and construct the day reader from the listed name, 1 Open, 2 read and check
 // every block the opened metadata announces (then Close)
 type verifC30Reader struct {
+	fromName Stats // totals decoded from the listed directory name (what listings / metadata-only queries use)
+	hasName  bool
 	phase  int
 	r      *GPDir
 	before []verifC04Blk // committed before the reader started
-	during verifC04Blk   // written concurrently
+	during []verifC04Blk // written concurrently (one write-out each)
 	n      int
+	nameBlocks int // number of blocks the listed name's totals stand for
+	cols   int // phase 2 reads this many columns per step (0: all in one step)
 }
 
-func (rd *verifC30Reader) done() bool { return rd.phase > 2 }
+func (rd *verifC30Reader) last() int {
+	if rd.cols == 1 {
+		return 3
+	}
+	return 2
+}
+
+func (rd *verifC30Reader) done() bool { return rd.phase > rd.last() }
 
 func (rd *verifC30Reader) step() {
 	switch rd.phase {
@@ -32,16 +43,37 @@ func (rd *verifC30Reader) step() {
 		}
 		v.Assert(found == 1, "a day with committed write-outs is listed exactly once at every moment of a write-out")
 		rd.r = NewDirReader(verifC04Base, verifC04Day, suffix)
+		if rd.r.Metadata != nil {
+			rd.fromName, rd.hasName = Stats{Traffic: rd.r.Metadata.Traffic, Counts: rd.r.Metadata.Counts}, true
+			all := append(append([]verifC04Blk(nil), rd.before...), rd.during...)
+			k := -1
+			for n := len(rd.before); n <= len(all); n++ {
+				if verifC04SumsTo(rd.fromName, all[:n]) {
+					k = n
+				}
+			}
+			v.Assert(k >= 0, "the totals in a listed directory name are those of a completed write-out")
+			rd.nameBlocks = k
+		}
 	case 1:
 		err := rd.r.Open()
 		v.Assert(err == nil, "opening a day for reading succeeds while it is being written")
 		rd.n = rd.r.NBlocks()
-		v.Assert(rd.n == len(rd.before) || rd.n == len(rd.before)+1, "the reader sees the blocks of a completed write-out: the previous state or the new one")
-	case 2:
-		want := append(append([]verifC04Blk(nil), rd.before...), rd.during)
+		v.Assert(rd.n >= len(rd.before) && rd.n <= len(rd.before)+len(rd.during), "the reader sees the blocks of a completed write-out: the previous state or a newer one")
+		if rd.hasName {
+			v.Assert(rd.n >= rd.nameBlocks, "a write-out announced by the directory name is already committed when the day is opened")
+		}
+	case 2, 3:
+		// all columns in one step, or (cols == 1) one column per step so that write-outs can complete between
+		// the reader's first accesses to different column files
+		colset := []types.ColumnIndex{types.SIPColIdx, types.BytesRcvdColIdx}
+		if rd.cols == 1 {
+			colset = colset[rd.phase-2 : rd.phase-1]
+		}
+		want := append(append([]verifC04Blk(nil), rd.before...), rd.during...)
 		var traffic TrafficMetadata
 		for i := 0; i < rd.n; i++ {
-			for _, c := range []types.ColumnIndex{types.SIPColIdx, types.BytesRcvdColIdx} {
+			for _, c := range colset {
 				got, err := rd.r.ReadBlockAtIndex(c, i)
 				v.Assert(err == nil, "reading a block succeeds while the day is being written")
 				v.Assert(v.EqBytes(got, want[i].data[c]), "a block read during a write-out is undamaged")
@@ -53,7 +85,9 @@ func (rd *verifC30Reader) step() {
 		if rd.r.NBlocks() == rd.n {
 			v.Assert(rd.r.Metadata.Traffic == traffic, "the totals belong to the blocks seen")
 		}
-		v.Assert(rd.r.Close() == nil, "closing the reader succeeds")
+		if rd.phase == rd.last() {
+			v.Assert(rd.r.Close() == nil, "closing the reader succeeds")
+		}
 	}
 	rd.phase++
 }
@@ -63,13 +97,15 @@ func (rd *verifC30Reader) step() {
 // as of a completed write-out - the previous ones or including the concurrent one - with undamaged blocks.
 func VerifC30_ReaderPhases() {
 	v.ResetTree()
-	rd := &verifC30Reader{}
+	rd := &verifC30Reader{cols: v.Param("SPLITCOLS", 0)}
 	for k := 0; k < v.Param("BEFORE", 1); k++ {
 		b := verifC04Block(k)
 		v.Assert(verifC04WriteOut(b) == nil, "an undisturbed write-out succeeds")
 		rd.before = append(rd.before, b)
 	}
-	rd.during = verifC04Block(len(rd.before))
+	for k := 0; k < v.Param("DURING", 1); k++ {
+		rd.during = append(rd.during, verifC04Block(len(rd.before)+k))
+	}
 	first := v.Param("FIRSTPHASE", 0)
 	for rd.phase < first {
 		rd.step() // phases before FIRSTPHASE happen before the write-out starts
@@ -79,9 +115,10 @@ func VerifC30_ReaderPhases() {
 			rd.step()
 		}
 	}
-	err := verifC04WriteOut(rd.during)
+	for _, b := range rd.during {
+		v.Assert(verifC04WriteOut(b) == nil, "the write-out succeeds with a reader on the day")
+	}
 	v.FSYield = nil
-	v.Assert(err == nil, "the write-out succeeds with a reader on the day")
 	for !rd.done() {
 		rd.step()
 	}
@@ -99,18 +136,18 @@ func VerifC30_WriteOutInsideRead() {
 		v.Assert(verifC04WriteOut(b) == nil, "an undisturbed write-out succeeds")
 		rd.before = append(rd.before, b)
 	}
-	rd.during = verifC04Block(len(rd.before))
+	rd.during = []verifC04Blk{verifC04Block(len(rd.before))}
 	written := false
 	v.FSYield = func() {
 		if !written && v.Bool() {
 			written = true
-			v.Assert(verifC04WriteOut(rd.during) == nil, "the write-out succeeds with a reader on the day")
+			v.Assert(verifC04WriteOut(rd.during[0]) == nil, "the write-out succeeds with a reader on the day")
 		}
 	}
 	for !rd.done() {
 		if !written && v.Bool() { // ... or between two reader phases
 			written = true
-			v.Assert(verifC04WriteOut(rd.during) == nil, "the write-out succeeds with a reader on the day")
+			v.Assert(verifC04WriteOut(rd.during[0]) == nil, "the write-out succeeds with a reader on the day")
 		}
 		rd.step()
 	}
